@@ -80,6 +80,31 @@ func main(a [9000]uint8, b uint8) (uint8, uint8) {
 `, func(r *vrt.Rng) ([]string, []string) {
 		return []string{"0x" + fmt.Sprintf("%x", r.Bytes(9000))}, []string{fmt.Sprint(r.Intn(256))}
 	}},
+	// the same instruction shape on operands of different sizes within one
+	// session: data-dependent index reads on slices of different lengths,
+	// slice expressions, and arrays of different sizes
+	{"same-shape-different-sizes", `package main
+func main(a, b []byte) (byte, byte, byte, byte, uint16, uint16) {
+	i := a[0] & 1
+	x := a[i]
+	y := b[i]
+	z := b[i+3]
+	s := b[1:3]
+	t := b[1:5]
+	var p [3]uint16
+	var q [5]uint16
+	for k := 0; k < 3; k++ {
+		p[k] = uint16(a[k % len(a)]) + uint16(k)
+	}
+	for k := 0; k < 5; k++ {
+		q[k] = uint16(b[k]) * 3
+	}
+	j := b[0] & 1
+	return x, y, z, s[i] ^ t[i+2], p[j], q[j+3]
+}
+`, func(r *vrt.Rng) ([]string, []string) {
+		return []string{"0x" + fmt.Sprintf("%x", r.Bytes(r.Range(2, 4)))}, []string{"0x" + fmt.Sprintf("%x", r.Bytes(r.Range(5, 11)))}
+	}},
 	// the evaluator's input wires (through one OT batch) straddle wire id 65536
 	{"evaluator-input-across-65536", `package main
 func main(a uint8, b [8200]uint8) (uint8, uint8, uint8) {
@@ -174,7 +199,11 @@ func runC05(cs *vrt.Case) {
 			return
 		}
 		want := refc.SplitOut(c.Outputs, flat[0])
-		o := runStream(r, src, nil, gIn, eIn, yaoOpts{ot: cs.Idx % 2, kind: 2, stallWin: 30 * time.Second})
+		otk := cs.Idx % 2
+		if strings.Contains(what, "across-65536") {
+			otk = 1 // 65600 base OTs with CO take minutes
+		}
+		o := runStream(r, src, nil, gIn, eIn, yaoOpts{ot: otk, kind: 2, stallWin: 30 * time.Second})
 		cs.Evals++
 		if pi := firstPanic(o.g, o.e); pi != nil {
 			if pi.InMPC {
